@@ -14,6 +14,10 @@ structure HistState where
   w : Option World := none
   lps : List String := []
   failNext : Option Nat := none
+  /-- the token factory's queries do not answer (`tfq off`): the denom-creation fee cannot be looked up, so `CreatePool` —
+      the only message that needs it — is refused; everything else is unaffected.  An environment fault outside the model's
+      `World` (like `mint`): applied by the driver. -/
+  tfqOff : Bool := false
 
 def USERS : List String := ["owner", "u1", "u2", "u3", "u4", "out"]
 def BASE_DENOMS : List String := ["uusdc", "ausdy", "uusdt", "udai", "uom", "uluna", "uusd"]
@@ -363,9 +367,14 @@ def histOp (st : HistState) (op : String) (args : List String) : Option (HistSta
     let (sender, ts) ← pTok args
     let (funds, ts) ← pCoins ts
     let ((c, m), _) ← pContractMsg ts
+    let needsTfQuery := match m with | .pm (.createPool ..) => true | _ => false
+    if st.tfqOff && needsTfQuery then some ({ st with failNext := none }, "err") else
     match runTx w (.exec sender c m funds) st.failNext with
     | .ok w' => some ({ st with w := some w', failNext := none }, "ok")
     | .error _ => some ({ st with failNext := none }, "err")
+  | "tfq" => do
+    let (v, _) ← pTok args
+    some ({ st with tfqOff := v == "off" }, "ok")
   | "snap" => do
     let w ← st.w
     let (s, lps) := snapshot w st.lps
